@@ -542,6 +542,58 @@ where
     core::mem::forget(r);
 }
 
+/// hook-free history: a fresh reader over symbolic data (public API only) and the model stream loaded with
+/// the same memory image receive the same OPS symbolic operations: same values, same positions.
+pub fn reader_history_step<E: En, W: VW + DoubleType, S: Src, const K: usize, const OPS: usize>(s: &mut S)
+where
+    Bb<W>: VW,
+    Rd<E, W, K>: RdOk<E, W, K>,
+{
+    use crate::ms::MS;
+    let data = any_array::<W, S, K>(s);
+    let mut m = MS::<E, false>::new();
+    // load the memory image byte by byte: canonical layout = each byte is an 8-bit field in stream order
+    let nb = W::NBITS / 8;
+    let mut i = 0;
+    while i < K * nb {
+        let byte = ((data[i / nb].to_u128() >> (8 * (i % nb))) & 0xff) as u64;
+        m.write_bits(byte, 8).unwrap();
+        i += 1;
+    }
+    let mut r = Rd::<E, W, K>::new(MemWordReader::new(data));
+    let mut t = 0;
+    while t < OPS {
+        let op = s.u8();
+        let n = s.usize_in(0, 64);
+        s.assume(op < 4);
+        let left = m.wlen - m.rpos;
+        if op == 0 {
+            s.assume(n <= left);
+            assert_eq!(r.read_bits(n).unwrap(), m.read_bits(n).unwrap(), "read_bits differs from the canonical stream");
+        } else if op == 1 {
+            let pn = 1 + n % W::NBITS;
+            s.assume(pn <= left);
+            let a: u64 = r.peek_bits(pn).unwrap().to_u128() as u64;
+            assert_eq!(a, m.peek_bits(pn).unwrap(), "peek_bits differs from the canonical stream");
+            let sk = s.usize_in(0, pn);
+            r.skip_bits_after_peek(sk);
+            m.skip_bits_after_peek(sk);
+        } else if op == 2 {
+            s.assume(n <= left);
+            r.skip_bits(n).unwrap();
+            m.skip_bits(n).unwrap();
+        } else {
+            // a one inside the remaining data
+            let z = s.usize();
+            s.assume(z < left && m.bit(m.rpos + z));
+            assert_eq!(r.read_unary().unwrap(), m.read_unary().unwrap(), "read_unary differs from the canonical stream");
+        }
+        assert_eq!(r.bit_pos().unwrap(), m.rpos as u64, "bit_pos differs from the canonical position");
+        t += 1;
+    }
+    crate::cover!(s, m.rpos > 2 * W::NBITS, "history crosses several words");
+}
+
 crate::harnesses! {
     c02_model_stream_val_be_u64 (quick, "BE,u64", "model self-check") => model_stream_val::<BE, u64, _>;
     c02_model_stream_val_be_u16 (quick, "BE,u16", "model self-check") => model_stream_val::<BE, u16, _>;
@@ -649,7 +701,7 @@ crate::harnesses! {
     #[kani::stub(alloc::fmt::format, crate::c13::stub_format)]
     #[kani::stub(std::string::ToString::to_string, crate::c13::stub_to_string)]
     #[kani::unwind(36)]
-    c02_backends_le_u16 (quick, "LE,u16,K=6: MemWordWriterSlice read back vs zero-extended MemWordReader (strict reader: C09; byte-stream adapter: c02_adapter_*)", "read_bits(n<=64) inside the data from any Inv_r state: same value and state over every backend kind") => reader_backend_kinds_step::<LE, u16, _, 6>;
+    c02_backends_le_u16 (thorough, "LE,u16,K=6: MemWordWriterSlice read back vs zero-extended MemWordReader (strict reader: C09; byte-stream adapter: c02_adapter_*)", "read_bits(n<=64) inside the data from any Inv_r state: same value and state over every backend kind") => reader_backend_kinds_step::<LE, u16, _, 6>;
     #[kani::stub(alloc::fmt::format, crate::c13::stub_format)]
     #[kani::stub(std::string::ToString::to_string, crate::c13::stub_to_string)]
     #[kani::unwind(36)]
@@ -674,4 +726,12 @@ crate::harnesses! {
     #[kani::stub(std::string::ToString::to_string, crate::c13::stub_to_string)]
     #[kani::unwind(20)]
     c02_adapter_le_u32 (thorough, "LE,u32: BufBitReader over WordAdapter<u32, Cursor<&[u8]>> (2 words)", "set_bit_pos(p<=W) then read_bits(n<=W) inside the data: same bits as the memory image, exact position") => reader_adapter_step::<LE, u32, _>;
+    #[kani::unwind(18)]
+    c02_history_be_u32 (quick, "BE,u32,K=4: public API only (no hooks), reader vs model stream", "2 symbolic operations (read_bits n<=64, peek_bits n<=W + skip_bits_after_peek, skip_bits, read_unary) from a fresh reader over symbolic data, inside the data") => reader_history_step::<BE, u32, _, 4, 2>;
+    #[kani::unwind(14)]
+    c02_history_le_u16 (thorough, "LE,u16,K=6: public API only (no hooks), reader vs model stream", "2 symbolic operations (read_bits n<=64, peek_bits n<=W + skip_bits_after_peek, skip_bits, read_unary) from a fresh reader over symbolic data, inside the data") => reader_history_step::<LE, u16, _, 6, 2>;
+    #[kani::unwind(12)]
+    c02_history_be_u8 (thorough, "BE,u8,K=10: public API only (no hooks), reader vs model stream", "2 symbolic operations (read_bits n<=64, peek_bits n<=W + skip_bits_after_peek, skip_bits, read_unary) from a fresh reader over symbolic data, inside the data") => reader_history_step::<BE, u8, _, 10, 2>;
+    #[kani::unwind(26)]
+    c02_history_le_u64 (thorough, "LE,u64,K=3: public API only (no hooks), reader vs model stream", "2 symbolic operations (read_bits n<=64, peek_bits n<=W + skip_bits_after_peek, skip_bits, read_unary) from a fresh reader over symbolic data, inside the data") => reader_history_step::<LE, u64, _, 3, 2>;
 }
